@@ -64,6 +64,7 @@ struct wrap_state W = {
     .fail_at = -1,
     .short_at = -1,
     .shrink_at = -1,
+    .grow_at = -1,
     .alloc_fail_at = -1,
     .log = NULL,
 };
@@ -72,7 +73,7 @@ void wrap_reset(void) {
   FILE *log = W.log;
   memset(&W, 0, sizeof W);
   W.clock = 1000000;
-  W.crash_at = W.fail_at = W.short_at = W.alloc_fail_at = W.shrink_at = -1;
+  W.crash_at = W.fail_at = W.short_at = W.alloc_fail_at = W.shrink_at = W.grow_at = -1;
   W.log = log;
 }
 
@@ -260,6 +261,22 @@ ssize_t __wrap_sendfile64(int out, int in, off_t *off, size_t n) {
     snprintf(p, sizeof p, "/proc/self/fd/%d", in);
     if (truncate(p, (off_t)W.shrink_n)) {
       perror("shrink");
+    }
+  }
+  if (W.grow_at == idx) {
+    /* another process appends to the source while it is being copied (after the size was taken) */
+    char p[64];
+    snprintf(p, sizeof p, "/proc/self/fd/%d", in);
+    int fd = __real_open64(p, O_WRONLY | O_APPEND);
+    if (fd >= 0) {
+      for (size_t i = 0; i < W.grow_n; ++i) {
+        if (__real_write(fd, "G", 1) != 1) {
+          break;
+        }
+      }
+      __real_close(fd);
+    } else {
+      perror("grow");
     }
   }
   GATE_FAIL("sendfile", -1);
